@@ -247,6 +247,19 @@ def run(ctx, chk, tier="quick"):
                     vect_no_otypes = inner
             else:
                 unknown_array_path = v
+    # a result array allocated "like" the argument inherits the argument's dtype
+    like = None
+    for c_ in ast.walk(call.node):
+        if isinstance(c_, ast.Call) and (full_call_name(mod, c_) or "").split(".")[-1] in ("full_like", "zeros_like", "empty_like", "ones_like") and c_.args \
+                and isinstance(c_.args[0], ast.Name) and c_.args[0].id == p:
+            dt = [k for k in c_.keywords if k.arg == "dtype"]
+            if not dt or "float" not in ast.unparse(dt[0].value):
+                like = c_
+    if like is not None:
+        chk.ob("C15.O3", False, where_of(call, like), "result allocated as %s" % ast.unparse(like)[:80],
+               "a floating-point result whatever the dtype of the levels passed in",
+               key="SplineTransmissivity.__call__|result-dtype",
+               why="for whole-millimetre (integer) levels the result array is integer: T_min and every integral are truncated")
     if vect_no_otypes is not None:
         chk.ob("C15.O3", False, where_of(call, vect_no_otypes), "array path = %s" % ast.unparse(vect_no_otypes),
                "call_scalar mapped over the elements with a floating-point result type",
